@@ -212,6 +212,13 @@ def run(idx, rep, tier):
                 rep.decide(not missing, "slice-buffers", f"Sliced.{m.name}:dtype", f"scatter buffer is typed by {sorted(bs)}, the scattered operand by {sorted(vs)}" +
                            ("" if not missing else ": a complex operand multiplied into a slice of a real operator silently loses its imaginary part"),
                            detail="" if not missing else "narrow", locs=[idx.loc(m.module, z)])
+    # ---- 3b. SLICE-ROLE: wherever the stored index objects are materialised (arange(N)[s], s.indices(N)), N is the parent's dimension
+    from sa.slicerole import slice_role_obligations
+    core = frozenset(idx.core_modules())
+    readers = [f for f in idx.funcs.values() if f.module.name in core and not (f.cls is not None and f.cls.name == "Sliced" and f.name == "__init__")
+               and any(isinstance(n, ast.Attribute) and n.attr == "slices" and isinstance(n.ctx, ast.Load) for n in df.body_nodes(f.node))]
+    if not slice_role_obligations(idx, rep, "slice-resolution", readers):
+        rep.note(f"slice-resolution: {len(readers)} functions read `.slices`; none materialises them against a length on this tree")
     # ---- 4. guard / use agreement (whole ops package)
     n_guards = 0
     for f in [f for f in idx.funcs.values() if f.module.name.startswith("cola.ops")]:
